@@ -55,6 +55,14 @@ pub enum Role {
     LeafPostEquals { key: Vec<W>, want: Vec<W> },
     /// non-leaf that forks `n` compute children, each appending its index to memory
     TracerCompute(u8),
+    /// leaf: true iff a post read of `key` (own contract) INTO MEMORY ADDRESS 1 returns exactly
+    /// `want`; the address operand `Push(1)` sits directly in front of the read op
+    LeafPostEqualsAt1 { key: Vec<W>, want: Vec<W> },
+    /// the program is exactly these bytes (possibly not well-formed bytecode); totality checks only
+    RawBytes(Vec<u8>),
+    /// the inner role built with this tag instead of the node's own: nodes given the same
+    /// role and tag share one program (same content address)
+    Tagged(Box<Role>, W),
 }
 
 #[derive(Clone, Debug, PartialEq, Eq, Hash, Serialize, Deserialize)]
@@ -215,6 +223,9 @@ fn probe(tag: W, op: u8, ext: u8, key: &[W], count: W) -> Vec<Op> {
 
 pub fn program_for(role: &Role, tag: W, leaf: bool) -> Vec<Op> {
     use asm::{Pred, TotalControlFlow as T};
+    if let Role::Tagged(inner, t) = role {
+        return program_for(inner, *t, leaf);
+    }
     let mut v = vec![];
     match role {
         Role::Tracer => {
@@ -295,6 +306,25 @@ pub fn program_for(role: &Role, tag: W, leaf: bool) -> Vec<Op> {
                 v.extend(probe(tag, *op, *ext, key, *count));
             }
         }
+        Role::Tagged(..) => unreachable!(),
+        // handled by `build` (bytes are used verbatim); as ops: what parses, else a failing program
+        Role::RawBytes(b) => match asm::from_bytes(b.iter().copied()).collect::<Result<Vec<_>, _>>() {
+            Ok(ops) => v.extend(ops),
+            Err(_) => v.extend([push(1), Op::TotalControlFlow(T::PanicIf)]),
+        },
+        Role::LeafPostEqualsAt1 { key, want } => {
+            use asm::{Memory as M, StateRead as SR};
+            v.extend(drop_all());
+            v.extend([push(0), Op::Memory(M::Free), push(3 + want.len() as W), Op::Memory(M::Alloc), Op::Stack(asm::Stack::Pop)]);
+            v.extend(key.iter().map(|&w| push(w)));
+            v.extend([push(key.len() as W), push(1), push(1), Op::StateRead(SR::PostKeyRange)]);
+            // memory [1..3+len) must be [3, len, want..]
+            v.extend([push(1), push(2 + want.len() as W), Op::Memory(M::LoadRange)]);
+            v.push(push(3));
+            v.push(push(want.len() as W));
+            v.extend(want.iter().map(|&w| push(w)));
+            v.extend([push(2 + want.len() as W), Op::Pred(Pred::EqRange)]);
+        }
         Role::LeafPostEquals { key, want } => {
             use asm::{Memory as M, StateRead as SR};
             v.extend(drop_all());
@@ -354,7 +384,10 @@ pub fn build(case: &CkCase) -> Built {
         for (ni, (edge_start, role)) in p.nodes.iter().enumerate() {
             let leaf = edges_of(&starts, &p.edges, ni).map(|e| e.is_empty()).unwrap_or(true);
             let ops = program_for(role, tag_of(pi, ni), leaf);
-            let prog = Program(asm::to_bytes(ops.iter().cloned()).collect());
+            let prog = match role {
+                Role::RawBytes(b) => Program(b.clone()),
+                _ => Program(asm::to_bytes(ops.iter().cloned()).collect()),
+            };
             let addr = essential_hash::content_addr(&prog);
             programs.insert(addr.clone(), Arc::new(prog));
             nodes.push(Node { edge_start: *edge_start, program_address: addr });
